@@ -795,6 +795,8 @@ func ruleR172(c *Ctx) {
 			continue
 		}
 		sepRecv := info.Defs[sep.Recv.List[0].Names[0]]
+		var byAddrParam types.Object // the *bool parameter of a separator helper that gets the flag by address
+		byAddrFlag := ""
 		// (ii) persistence: updates of the state must reach the container: pointer receivers, value fields on the path
 		isPtrRecv := func(fd *ast.FuncDecl) bool {
 			_, ok := fd.Recv.List[0].Type.(*ast.StarExpr)
@@ -816,7 +818,39 @@ func ruleR172(c *Ctx) {
 				}
 			}
 			if byAddress {
-				undecided = "the separator state is handed to " + sep.Name.Name + " by address (a *bool parameter); the typestate check follows flags that are fields of the receiver only"
+				// the flag is *p inside the helper; at the call site in Add it is &recv.F with F a field of the container
+				byAddrField := ""
+				for _, fl := range sep.Type.Params.List {
+					if pt, ok := info.TypeOf(fl.Type).(*types.Pointer); ok && len(fl.Names) == 1 {
+						if b, ok := pt.Elem().Underlying().(*types.Basic); ok && b.Kind() == types.Bool {
+							byAddrParam = info.Defs[fl.Names[0]]
+						}
+					}
+				}
+				sepObj, _ := info.Defs[sep.Name].(*types.Func)
+				ast.Inspect(add.Body, func(y ast.Node) bool {
+					cc, ok := y.(*ast.CallExpr)
+					if !ok || sepObj == nil || Callee(info, cc) != sepObj.Origin() {
+						return true
+					}
+					for _, a := range cc.Args {
+						if u, ok := ast.Unparen(a).(*ast.UnaryExpr); ok && u.Op == token.AND {
+							if fs, ok := ast.Unparen(u.X).(*ast.SelectorExpr); ok {
+								if id, ok := ast.Unparen(fs.X).(*ast.Ident); ok && info.ObjectOf(id) == addRecv {
+									byAddrField = fs.Sel.Name
+								}
+							}
+						}
+					}
+					return true
+				})
+				if byAddrParam == nil || byAddrField == "" {
+					undecided = "the separator state is handed to " + sep.Name.Name + " by address (a *bool parameter), but not as the address of a field of the container"
+					byAddrParam = nil
+				} else {
+					byAddrFlag = byAddrField
+					path = nil // the flag is a field of the container itself
+				}
 			} else {
 				problems = append(problems, sep.Name.Name+" has a value receiver: the separator state it updates is lost")
 			}
@@ -892,6 +926,9 @@ func ruleR172(c *Ctx) {
 			}
 			return false
 		})
+		if byAddrParam != nil {
+			flag, flagChain = byAddrFlag, nil
+		}
 		if flag == "" || flag == "?" {
 			c.Undecided(key, sep.Pos(), "the separator logic does not depend on exactly one boolean field reachable from its receiver")
 			continue
@@ -945,6 +982,11 @@ func ruleR172(c *Ctx) {
 						return o.val != neg, true
 					}
 				}
+				if st, ok := e.(*ast.StarExpr); ok && byAddrParam != nil {
+					if id, ok := ast.Unparen(st.X).(*ast.Ident); ok && info.ObjectOf(id) == byAddrParam {
+						return o.val != neg, true
+					}
+				}
 				return false, false
 			}
 			walk = func(stmts []ast.Stmt) bool {
@@ -972,6 +1014,9 @@ func ruleR172(c *Ctx) {
 						}
 						// another condition (error handling): must not touch the flag or the comma
 						if containsNode(t, isCommaWrite) || containsNode(t, func(y ast.Node) bool {
+							if id, ok := y.(*ast.Ident); ok && byAddrParam != nil && info.ObjectOf(id) == byAddrParam {
+								return true
+							}
 							sel, ok := y.(*ast.SelectorExpr)
 							return ok && sel.Sel.Name == flag
 						}) {
@@ -982,7 +1027,16 @@ func ruleR172(c *Ctx) {
 							o.comma = true
 						}
 						if len(t.Lhs) == 1 && len(t.Rhs) == 1 {
+							isFlagLhs := false
 							if sel, ok := ast.Unparen(t.Lhs[0]).(*ast.SelectorExpr); ok && sel.Sel.Name == flag {
+								isFlagLhs = true
+							}
+							if st, ok := ast.Unparen(t.Lhs[0]).(*ast.StarExpr); ok && byAddrParam != nil {
+								if id, ok := ast.Unparen(st.X).(*ast.Ident); ok && info.ObjectOf(id) == byAddrParam {
+									isFlagLhs = true
+								}
+							}
+							if isFlagLhs {
 								if tv := info.Types[t.Rhs[0]]; tv.Value != nil && tv.Value.Kind() == constant.Bool {
 									o.val = constant.BoolVal(tv.Value)
 								} else {
